@@ -36,8 +36,11 @@ DOCUMENTED = {"ConnectionNotAvailable", "ProxyError", "UnsupportedProtocol", "Pr
 
 def outcome_of(fn):
     try:
-        fn()
+        with propbase.time_limit(3.0):
+            fn()
         return "ok", None
+    except propbase.HangDetected:
+        return "hang", None
     except simnet.Starved:
         return "starved", None
     except BaseException as e:  # noqa
@@ -259,8 +262,27 @@ def run(ctx, driver):
                     continue        # HTTP/1.1 absorbs a write error and goes on to read the response
                 if outcome != "error:" + exc:
                     rec.fail("backend-error-class-changed", {"kind": kind, "injected": exc, "got": outcome, "op": op}, payload)
-    # invalid requests from the caller
+    # protocol switches: reading the (empty) body of a 101 / CONNECT-2xx response must return, not spin
     import httpcore
+    for what, method, headers, reply in [("101", "GET", [("Connection", "upgrade"), ("Upgrade", "websocket")], b"HTTP/1.1 101 Switching Protocols\r\nUpgrade: websocket\r\n\r\nDATA"),
+                                         ("connect-200", "CONNECT", [], b"HTTP/1.1 200 OK\r\n\r\nDATA")]:
+        for segs in ([reply], [reply[:20], reply[20:]]):
+            peer = h1gen.OpenPeer(list(segs), eof=True)
+            net = simnet.Net(simnet.Behavior(peer_factory=lambda rec, peer=peer: peer))
+
+            def go(net=net, method=method, headers=headers):
+                with httpcore.ConnectionPool(network_backend=simnet.SimBackend(net)) as pool:
+                    url = "http://example.com/" if method == "GET" else httpcore.URL(scheme=b"http", host=b"example.com", port=80, target=b"t.example:443")
+                    r = pool.request(method, url, headers=headers)
+                    assert r.content == b""
+            outcome, detail = outcome_of(go)
+            rec.evals += 1
+            rec.distinct.add(("switch", what, len(segs)))
+            rec.dist[f"switch:{what}:{outcome}"] += 1
+            if outcome != "ok":
+                rec.fail("call-did-not-return-after-input-ended" if outcome in ("hang", "starved") else "switch-response-body-read-failed",
+                         {"proto": "h1", "what": what, "got": outcome}, {"what": what, "outcome": outcome, "exception": detail})
+    # invalid requests from the caller
     for proto in ("h1", "h2"):
         for what, kwargs in [("bad-method", dict(method="GE T")), ("bad-header-name", dict(headers=[("Bad Name", "v")])),
                              ("bad-header-value", dict(headers=[("X", "a\r\nb")])), ("content-length-too-small", dict(headers=[("Content-Length", "1")], content=b"abcdef")),
@@ -324,8 +346,8 @@ def inject_stage(kind, k, op, net_ops):
 
 
 def judge(rec, proto, stage, cause, outcome, detail, payload, case):
-    if outcome in ("ok", "starved"):
-        if outcome == "starved":
+    if outcome in ("ok", "starved", "hang"):
+        if outcome in ("starved", "hang"):
             rec.fail("call-did-not-return-after-input-ended", {"proto": proto}, payload)
         return
     name = outcome.split(":", 1)[1]
